@@ -55,7 +55,9 @@ def validator_probes(ctx, res, ops, impl):
     miner = SECP256k1PublicKey(bytes(rng.getrandbits(8) for _ in range(64)))
 
     def mk(height, prev, value):
-        cb = Transaction([Input(OutputReference(b"\x00" * 32, 0), CoinbaseData(height, b"c16"))], [Output(value, miner)])
+        values = value if isinstance(value, (list, tuple)) else [value]
+        cb = Transaction([Input(OutputReference(b"\x00" * 32, 0), CoinbaseData(height, b"c16"))],
+                         [Output(v_, miner) for v_ in values])
         sm = BlockSummary(height, prev, consensus.calc_merkle_root_hash([cb]), 1_700_000_000 + height % 1000,
                           b"\xff" * 32, 0)
         return Block(BlockHeader(sm, PowEvidence(b"\x00" * 32, b"\x00" * 32, b"\x00" * 32)), [cb])
@@ -77,8 +79,13 @@ def validator_probes(ctx, res, ops, impl):
         claims = {spec(h): True, spec(h) + 1: False}
         if spec(h - 1) > spec(h):
             claims[spec(h - 1)] = False
+        if spec(h) >= 2:
+            # the limit is on what the block creates, however the reward is split over outputs
+            claims[(spec(h) - 1, 1)] = True
+            claims[(spec(h), spec(h))] = False
+            claims[(spec(h) // 2 + 1, spec(h) // 2 + 1, 1)] = False
         for value, allowed in claims.items():
-            if value <= 0:
+            if not isinstance(value, tuple) and value <= 0:
                 continue                      # a zero-valued output is refused elsewhere (range check), not here
             blk = mk(h, parent.hash(), value)
             try:
@@ -92,7 +99,7 @@ def validator_probes(ctx, res, ops, impl):
             res.count("validator_probe:" + ("allowed" if allowed else "excess"))
             if got != allowed and v_reported < 5:
                 v_reported += 1
-                res.violations.append({"kind": "the validator %s a fee-less coinbase of %d sashimi at height %d; the schedule "
+                res.violations.append({"kind": "the validator %s a fee-less coinbase of %s sashimi at height %d; the schedule "
                                                "allows %d there" % ("accepts" if got else "rejects", value, h, spec(h)),
                                        "height": h, "claimed": value, "block": blk.serialize().hex(),
                                        "parent": parent.serialize().hex()})
